@@ -53,8 +53,10 @@ def worm_gear_and_wheel_maximum_helix_angle_function(
 ) -> Angle:
     return Angle(
         value=float(
-            WORM_GEAR_AND_WHEEL_DATA.set_index('Pressure Angle').loc[
-                pressure_angle.to('deg').value,
+            WORM_GEAR_AND_WHEEL_DATA.loc[
+                WORM_GEAR_AND_WHEEL_AVAILABLE_PRESSURE_ANGLES.index(
+                    pressure_angle
+                ),
                 'Maximum Helix Angle'
             ]
         ),
@@ -63,8 +65,8 @@ def worm_gear_and_wheel_maximum_helix_angle_function(
 
 
 def worm_wheel_lewis_factor_function(pressure_angle: Angle) -> Angle:
-    return WORM_GEAR_AND_WHEEL_DATA.set_index('Pressure Angle').loc[
-        pressure_angle.to('deg').value,
+    return WORM_GEAR_AND_WHEEL_DATA.loc[
+        WORM_GEAR_AND_WHEEL_AVAILABLE_PRESSURE_ANGLES.index(pressure_angle),
         'Lewis Factor'
     ]
 
